@@ -30,6 +30,7 @@ func c18(c *Ctx) {
 	c18sig(c)
 	c18cryption(c)
 	c18padding(c)
+	c18claims(c)
 }
 
 func c18jwt(c *Ctx) {
@@ -780,4 +781,58 @@ func c18padding(c *Ctx) {
 		})
 	}
 	c.R.Min(rule, 2, "pkcs5Padding, pkcs5Unpadding")
+}
+
+// c18claims: every non-standard claim is accumulated on the request context handed to the handler.
+func c18claims(c *Ctx) {
+	rule := "C18.R3"
+	f := c.fn(rule, "rest/handler", "Authorize")
+	if f == nil {
+		return
+	}
+	var serve *ssa.Function
+	var walk func(g *ssa.Function)
+	walk = func(g *ssa.Function) {
+		for _, a := range g.AnonFuncs {
+			if callsInBody(a, func(cc *ssa.CallCommon) bool { return calleeName(cc) == "context.WithValue" }) {
+				serve = a
+			}
+			walk(a)
+		}
+	}
+	walk(f)
+	if serve == nil {
+		c.R.Undecided(rule, "rest/handler.Authorize$claims", "anchor resolves", "closure calling context.WithValue not found")
+		return
+	}
+	ps := c.paths(rule, serve, px.Config{MaxVisits: 2, MaxPaths: 100000})
+	two := 0
+	held := c.forall(rule, "rest/handler.Authorize$claims", "claims are accumulated: each context.WithValue extends the context built so far (starting from the request's), and the handler receives the request with the final context — so every non-standard claim is visible, not just the last one", serve, ps, func(p *px.Path) (bool, string) {
+		wvs := p.All(calleeIs("context.WithValue"))
+		for i, w := range wvs {
+			parent := w.Call.Args[0].Strip(false)
+			if i == 0 {
+				if parent.Kind != px.KCall || parent.Call.Obj() == nil || parent.Call.Obj().Name() != "Context" {
+					return false, "the first claim is not attached to the request's context"
+				}
+				continue
+			}
+			two++
+			if parent != wvs[i-1].Res {
+				return false, "a claim is attached to the original request context instead of the context carrying the previous claims: only the last claim reaches the handler"
+			}
+		}
+		if p.Exit == px.ExitReturn && len(wvs) > 0 {
+			for _, e := range p.All(isServeHTTP) {
+				wc := e.Call.Args[1].Strip(false)
+				if wc.Kind != px.KCall || wc.Call.Obj() == nil || wc.Call.Obj().Name() != "WithContext" || wc.Call.Args[1].Strip(false) != wvs[len(wvs)-1].Res {
+					return false, "the handler does not receive the request with the accumulated claims context"
+				}
+			}
+		}
+		return true, ""
+	})
+	if held && two == 0 {
+		c.R.Undecided(rule, "rest/handler.Authorize$claims#reach", "a path with two claims is analysed", "no path with two WithValue calls")
+	}
 }
